@@ -1501,7 +1501,13 @@ typedef struct
   int fd, nlines;
   uint64_t seed;
   volatile int stop, written;
+  volatile long sent, consumed;	/* bytes written by the feeder / bytes the consumer has dequeued */
 } feeder_t;
+
+/* flow control: the feeder never runs more than this many bytes (about 100 lines, far below the 256 slots of the
+ * line queue) ahead of the consumer - on a correct implementation DROP_OLDEST can then never drop, however the
+ * threads are scheduled (no verdict depends on the consumer keeping up in time) */
+#define FEED_WINDOW 3000
 
 static void console_line (char *buf, size_t cap, int i)
 {
@@ -1515,6 +1521,9 @@ static void *feeder_thread (void *arg)
   for (int i = 0; i < f->nlines && !__atomic_load_n (&f->stop, __ATOMIC_ACQUIRE); i++)
     {
       console_line (line, sizeof line, i);
+      while (__atomic_load_n (&f->sent, __ATOMIC_ACQUIRE) - __atomic_load_n (&f->consumed, __ATOMIC_ACQUIRE) > FEED_WINDOW
+             && !__atomic_load_n (&f->stop, __ATOMIC_ACQUIRE))
+        usleep (200);
       {
         /* the write end is non-blocking: a full pipe (nobody reads after a shutdown) must not hang the feeder */
         size_t off = 0, len = strlen (line);
@@ -1531,6 +1540,7 @@ static void *feeder_thread (void *arg)
         if (off < len)
           return 0;
       }
+      __atomic_fetch_add (&f->sent, (long) strlen (line), __ATOMIC_ACQ_REL);
       __atomic_store_n (&f->written, i + 1, __ATOMIC_RELEASE);
       if (rng_next (&f->seed) % 3 == 0)
         usleep (rng_next (&f->seed) % 300);
@@ -1572,6 +1582,7 @@ static void mt_console (int nlines, int mode, uint64_t seed)
   the_rt ();
   lq = async_queue_create (256, CONSOLE_MAX_LINE, ASYNC_QUEUE_DROP_OLDEST);
   fd_.fd = pfd[1], fd_.nlines = nlines, fd_.seed = seed * 31 + 7, fd_.stop = 0, fd_.written = 0;
+  fd_.sent = 0, fd_.consumed = 0;
   /* console_worker.c posts through the EPOLL back end (it is linked against libasync), so this run always uses it */
   set_gate_fds ();
   console_jitter = seed | 1;
@@ -1611,6 +1622,7 @@ static void mt_console (int nlines, int mode, uint64_t seed)
                 why = "chunk-length-differs-from-completion-data";
               if (glen + sz < gcap)
                 memcpy (got + glen, chunk, sz - 1), glen += sz - 1;
+              __atomic_store_n (&fd_.consumed, (long) glen, __ATOMIC_RELEASE);
             }
         }
       if (glen >= elen || why)
